@@ -1,6 +1,5 @@
 //! C17 – starting-hand score equals the Chen formula for every two-card hand.
 use super::common::*;
-use crate::spec::card::*;
 use crate::spec::chen;
 use crate::src::Src;
 use ckc_rs::cards::two::Two;
